@@ -13,10 +13,12 @@ ToBytes(piece) == [i \in 1..Len(piece) |-> e.alpha[piece[i]]]
 PiecesBytes(t) == [i \in 1..Len(t) |-> ToBytes(t[i])]
 
 \* "maps pieces through the vocabulary": the explicit vocabulary that was
-\* handed to Bpe::new is logged as <<piece bytes, id>> pairs.
+\* handed to Bpe::new is logged as <<piece bytes, id>> pairs.  Ids range over
+\* the whole u32 space (sparse / large id schemes), so an id is logged as the
+\* pair <<id \div 2^16, id % 2^16>> and compared as such.
 HasId(pb) == \E i \in DOMAIN e.xvocab : e.xvocab[i][1] = pb
 IdOf(pb) == e.xvocab[CHOOSE i \in DOMAIN e.xvocab : e.xvocab[i][1] = pb][2]
-IdsOf(t) == [i \in 1..Len(t) |-> IF HasId(ToBytes(t[i])) THEN IdOf(ToBytes(t[i])) ELSE 0 - 1]
+IdsOf(t) == [i \in 1..Len(t) |-> IF HasId(ToBytes(t[i])) THEN IdOf(ToBytes(t[i])) ELSE <<0 - 1, 0 - 1>>]
 
 DerivedIdsOk(ids, t) ==
   /\ Len(ids) = Len(t)
